@@ -11,7 +11,7 @@ if [ ! -d "$SR" ]; then git -C /repo worktree add -q --detach "$SR" HEAD || exit
 mkdir -p "$SV"
 rsync -a --delete --exclude '.git' --exclude 'harness/target*' --exclude '.run' --exclude 'replay' --exclude 'evidence' /verif/ "$SV/"
 mkdir -p "$SV/evidence"
-sed -i "s#\"/repo/#\"$SR/#g" "$SV/harness/Cargo.toml"
+sed -i "s#\"/repo/#\"$SR/#g" "$SV/harness/Cargo.toml" "$SV/harness/fuzz/Cargo.toml"
 if ! ( cd "$SR" && git apply "$patch" ); then echo "patch does not apply"; exit 8; fi
 ( cd "$SV" && ./check "$prop" "$tier" > /tmp/try_mutant_scratch.out 2>&1 ); rc=$?
 ( cd "$SR" && git checkout -- . )
